@@ -270,7 +270,7 @@ def loadEmbeddedTs (K : Consts) (types : List JType) : Except Err TypeSystem := 
   let base := if hasDocKey then Gen.builtinTSNoDoc else Gen.builtinTS
   let order ← toposort types
   let ts1 ← order.foldlM (fun (ts : TypeSystem) (n : String) =>
-    if K.predefined.contains n || containsType ts n then pure ts
+    if K.predefined.contains n || hasExact ts n then pure ts     -- `contains_type(name, match_exactly=True)`
     else match types.find? (fun t => t.name == n) with
       | some jt => createType K ts n jt.super jt.descr
       | none => throw Err.keyError) base
